@@ -1013,3 +1013,12 @@ package vanguard
 //@   ensures[C19] err == nil && method == "GET" ==> !includeBody && op.request.Method == "GET" && isA(op.server.codec, StableCodec) && noSideEffects(op.methodConf)
 //@   ensures[C19] err == nil && method == "GET" ==> len(urlPath) + len(queryParams) + 1 <= op.methodConf.maxGetURLBytes
 //@   ensures[C19] err == nil && method == "POST" ==> includeBody && queryParams == ""
+// The GET message is URL-safe base64 (unpadded first, padded as the only fallback), then goes through
+// the client's decompressor and the client's codec, exactly like a POST body.
+//@ func (connectUnaryGetClientProtocol).prepareUnmarshalledRequest
+//@   requires validOp(op) && op.request.URL != nil && op.bufferPool != nil
+//@   track decs = (*encoding/base64.Encoding).DecodeString
+//@   atcall[C19] (*encoding/base64.Encoding).DecodeString: decs <= 2 && (decs == 1 ==> arg(0) == base64.RawURLEncoding) && (decs == 2 ==> arg(0) == base64.URLEncoding)
+//@   atcall[C19,C01] (vanguard.Codec).Unmarshal: arg(0) == op.client.codec
+//@   atcall[C19,C01] (*compressionPool).decompress: arg(0) == op.client.reqCompression
+//@   ensures[C19] len(src) > 0 ==> r0 != nil
